@@ -1,5 +1,6 @@
 import LLRP.Proofs.ClientLTS2
 import LLRP.Gen.Consts
+import LLRP.Proofs.SeqDispatch
 /-!
 # C03 — replies are delivered to the request that caused them, and only to it
 
@@ -209,5 +210,30 @@ example : check03 (obsOf (run init demo) [1]) = none := by decide
 /-- the monitor rejects the observation of the unrepaired client (the KeepAlive returned as the reply) -/
 example : check03 ⟨[{ typ := 62, id := 0, pay := 5 }, { typ := 12, id := 0, pay := 6 }], [⟨some 0, some (62, 5)⟩]⟩
     = some "reply-not-own" := by decide
+
+/-! ## the dispatcher as translated from the source
+
+`Gen.llrp_Client_passToHandler` is the go2seq translation of `Client.passToHandler` (regenerated from `reader.go` on
+every run, deferred drain included). The theorem quantifies over the whole environment: every await map, every channel
+behaviour, every handler. -/
+
+/-- **A keep-alive, tag report or reader event is never handed to a caller as its reply, even if its ID equals that of
+an outstanding request** — at the level of the translated source: for these three types `passToHandler` neither looks
+the ID up in the await map, nor deletes from it, nor sends on or closes any reply channel (replacing those operations
+by anything leaves its behaviour unchanged). The three type codes are the regenerated constants. -/
+theorem src_unsolicited_never_matched (E : Gen.Env_llrp_Client_passToHandler) (w : E.World) (hdr : E.Header)
+    (h : E.get_Header_typ hdr = 62 ∨ E.get_Header_typ hdr = 61 ∨ E.get_Header_typ hdr = 63)
+    (idx : E.Map_messageID_Chan_Message → Int → E.Chan_Message × Bool)
+    (del : E.World → E.Map_messageID_Chan_Message → Int → E.World)
+    (snd : E.World → E.Chan_Message → E.Message → E.World) (cls : E.World → E.Chan_Message → E.World)
+    (lk ulk : E.World → E.sync_Mutex → E.World) :
+    Gen.llrp_Client_passToHandler { E with index_Map_messageID_Chan_Message := idx, delete_Map_messageID_Chan_Message := del, send_Chan_Message := snd, close_Chan_Message := cls, sync_Mutex_Lock_1 := lk, sync_Mutex_Unlock_1 := ulk } w hdr
+      = Gen.llrp_Client_passToHandler E w hdr :=
+  SeqClient.passToHandler_unsolicited E w hdr h idx del snd cls lk ulk
+
+theorem src_unsolicited_consts : (LTS.tKeepAlive : Int) = 62 ∧ (LTS.tROAccessReport : Int) = 61 ∧
+    (LTS.tReaderEventNotification : Int) = 63 ∧
+    Gen.msgConsts.lookup "KeepAlive" = some 62 ∧ Gen.msgConsts.lookup "ROAccessReport" = some 61 ∧
+    Gen.msgConsts.lookup "ReaderEventNotification" = some 63 := SeqClient.unsolicited_consts
 
 end LLRP.C03
